@@ -1,5 +1,6 @@
 """C11 -- production names rename glyphs and change nothing else."""
 import io, traceback
+from fractions import Fraction as Fr
 from harness import gterm as G
 from harness.fonts import build_font, jsonable
 
@@ -142,6 +143,7 @@ def explore(ctx):
     agl_correspondence(ctx, [b for m in meta for _, b in m["impl_rename_map"]])
     compile_level(ctx)
     default_switch_section(ctx)
+    sparse_master_section(ctx)
     variable_section(ctx)
 
 
@@ -300,6 +302,58 @@ def default_switch_section(ctx):
                 ctx.spec_failure(dict(case, names=got, names_when_on=on, names_when_off=off),
                                  "without an argument the glyph names are %r; the lib switches ask for production names %s, i.e. %r" % (
                                      got, "ON" if want_on else "OFF", on if want_on else off))
+
+
+def sparse_master_section(ctx):
+    """interpolatable master sets with a SPARSE layer master (its glyphs carry their code points, as the default layer's do):
+    with production names on, a glyph has the same final name in every master that contains it -- the sparse master is renamed
+    like the full ones -- and with names off every master keeps the source names"""
+    import ufo2ft
+    from harness import dsgen
+    from fontTools.designspaceLib import SourceDescriptor
+    rng = ctx.subrng("sparse-names")
+    sq = lambda x, d: [[(Fr(x), Fr(0), "line"), (Fr(x + d), Fr(0), "line"), (Fr(x + d), Fr(d), "line"), (Fr(x), Fr(d), "line")]]
+    for i in range(ctx.budget(6, 12)):
+        lib = ["ufoLib2", "defcon"][i % 2]
+        fn = ["compileInterpolatableTTFsFromDS", "compileInterpolatableOTFsFromDS"][(i // 2) % 2]
+        how = ["argument", "postscriptNames in the lib", "argument"][(i // 4) % 3]
+
+        def master(k):
+            gl = [{"name": "e", "unicodes": [0x65], "width": Fr(500 + 10 * k), "contours": sq(10, 300 + 10 * k), "components": [], "anchors": []},
+                  {"name": "e.alt", "unicodes": [], "width": Fr(500 + 10 * k), "contours": sq(20, 280 + 10 * k), "components": [], "anchors": []},
+                  {"name": "a", "unicodes": [0x61], "width": Fr(520), "contours": sq(5, 200 + k), "components": [], "anchors": []}]
+            lb = {"public.postscriptNames": {"e": "E.prod", "e.alt": "E.prod.alt", "a": "A.prod"}} if how.startswith("postscript") else {}
+            return {"glyphs": gl, "glyphOrder": ["e", "e.alt", "a"], "kerning": {}, "groups": {}, "lib": lb,
+                    "info": {"familyName": "Fam", "styleName": "M%d" % k, "unitsPerEm": 1000, "ascender": 800, "descender": -200}}
+        case = {"function": fn, "lib": lib, "production_names_by": how, "font": jsonable(master(0)), "sparse_layer": ["e", "e.alt"]}
+        ctx.count(); ctx.klass("sparse master names: %s / %s" % (fn, how)); ctx.nontriv(("spn", i, ctx.scale))
+        try:
+            outs = {}
+            for upn in (True, False):
+                ds, fonts = dsgen.make_designspace(rng, [master(0), master(2)], lib, instances=False)
+                layer = fonts[0].newLayer("Medium")
+                tmp = build_font(master(1), lib)
+                for n in ("e", "e.alt"):
+                    g = layer.newGlyph(n); g.width = tmp[n].width; tmp[n].drawPoints(g.getPointPen())
+                    g.unicodes = list(tmp[n].unicodes)
+                sd = SourceDescriptor()
+                sd.font, sd.layerName, sd.location, sd.name = fonts[0], "Medium", {"Weight": 500}, "master.Medium"
+                sd.familyName, sd.styleName = "Fam", "Medium"
+                ds.sources.insert(1, sd)
+                kw = {"useProductionNames": upn} if how == "argument" or not upn else {}
+                outs[upn] = {s_.name: s_.font.getGlyphOrder() for s_ in getattr(ufo2ft, fn)(ds, **kw).sources}
+        except Exception as e:
+            ctx.spec_failure(case, "%s raised %s: %s\n%s" % (fn, type(e).__name__, e, traceback.format_exc()[-1000:]))
+            continue
+        on, off = outs[True], outs[False]
+        full = on["master.0"]
+        want = dict(zip(off["master.0"], full))
+        if off["master.Medium"] != [".notdef", "e", "e.alt"] or off["master.0"] != [".notdef", "e", "e.alt", "a"]:
+            ctx.spec_failure(dict(case, names_off=off), "with names off the masters are named %r" % off)
+        elif full == off["master.0"] or on["master.Medium"] != [want[n] for n in off["master.Medium"]] or on["master.1"] != full:
+            ctx.spec_failure(dict(case, names_on=on, names_off=off),
+                             "with production names on the masters are named %r: the sparse master's glyphs should be called %r like in the full masters" % (
+                                 on, [want[n] for n in off["master.Medium"]]))
 
 
 def compile_level(ctx):
